@@ -29,7 +29,7 @@
    ENC/DLV/DEC, which also execute the extracted decoder on the implementation's bytes). *)
 From FV Require Import Model.Base Model.Sink Model.Codes Model.Rice Model.Predict Model.Component Model.Encoder
   Model.Flac Model.Ctor Proofs.Lossless Proofs.BitRead Proofs.BitWrite Proofs.CtorP Proofs.ParseResidual
-  Proofs.ParseSubframe Proofs.DecodeSubframe Proofs.EncoderVerifies Proofs.CountBits Proofs.DecodeFrame Proofs.EncodeFrameE2E Proofs.DecodeStream.
+  Proofs.ParseSubframe Proofs.DecodeSubframe Proofs.EncoderVerifies Proofs.CountBits Proofs.DecodeFrame Proofs.EncodeFrameE2E Proofs.DecodeStream Proofs.EncodeTotal Proofs.BlockHyps.
 Local Open Scope Z_scope.
 
 (* whatever the estimators answer, the subframe the encoder returns decodes to the block it was
@@ -216,3 +216,54 @@ Theorem C01_stream_end_to_end :
       decode_stream bytes = Some (mkSinfo bs bs minf maxf rate channels bps (N.of_nat total) (md5 (md5_input bps samples)), samples).
 Proof. exact stream_end_to_end. Qed.
 Print Assumptions C01_stream_end_to_end.
+
+(* the frame-level entry point: its own argument checks (frame number below 2^31, samples inside the declared width)
+   supply the range hypotheses of C01_frame_end_to_end *)
+Theorem C01_fixed_size_frame_end_to_end :
+  forall (ent : N -> N -> N -> N) (qlpc : N -> N -> qparams) cfg rate channels bps fi number block f si bytes rest n,
+    encode_fixed_size_frame ent qlpc cfg rate channels bps fi number block = Ok f ->
+    cfg_max_parameter cfg <= 14 -> In bps [8; 12; 16; 20; 24] -> rate < 2 ^ 32 -> 1 <= channels <= 8 ->
+    (1 <= n)%nat -> N.of_nat n <= Generated.c_MAX_BLOCK_SIZE ->
+    block_hyps qlpc cfg fi channels bps block n ->
+    i_rate si = rate -> i_bps si = bps ->
+    Forall (fun x => x < 256) rest ->
+    frame_bytes f = Ok bytes ->
+    number < 2 ^ 31 /\
+    exists ctag, read_frame si (bytes ++ rest) = Some (mkFH (N.of_nat n) ctag number (rate mod 2 ^ 32) bps, chans channels block, rest).
+Proof. exact fixed_size_frame_end_to_end. Qed.
+Print Assumptions C01_fixed_size_frame_end_to_end.
+
+(* ---- the same stream theorem with the hypotheses reduced to what is about the LPC estimator ---- *)
+(* stream_lpc_hyps qlpc cfg channels bs samples: ONLY when cfg_use_lpc cfg = true, for every block j and every signal
+   the encoder may code for it (each channel, mid, side): the estimator's answer qlpc j var is a verified parameter set
+   of order 1..length whose residuals are representable (lpc_fits).  Lengths and sample ranges of those signals are
+   no longer assumed: they follow from the block (and the block's range from the encoder's own check). *)
+Theorem C01_stream_end_to_end_lpc :
+  forall (ent : N -> N -> N -> N) (qlpc : N -> N -> qparams) (md5 : list N -> list N)
+         cfg rate channels bps bs samples bytes (total : nat),
+    encode_stream_bytes ent qlpc md5 cfg rate channels bps bs samples = Ok bytes ->
+    cfg_max_parameter cfg <= 14 -> In bps [8; 12; 16; 20; 24] -> 1 <= rate < 2 ^ 20 -> 1 <= channels <= 8 ->
+    16 <= bs <= Generated.c_MAX_BLOCK_SIZE ->
+    length samples = (total * N.to_nat channels)%nat -> N.of_nat total < 2 ^ 36 ->
+    length (md5 (md5_input bps samples)) = 16%nat -> Forall (fun x => x < 256) (md5 (md5_input bps samples)) ->
+    stream_lpc_hyps qlpc cfg channels bs samples ->
+    exists minf maxf,
+      decode_stream bytes = Some (mkSinfo bs bs minf maxf rate channels bps (N.of_nat total) (md5 (md5_input bps samples)), samples).
+Proof. exact stream_end_to_end_lpc. Qed.
+Print Assumptions C01_stream_end_to_end_lpc.
+
+(* with the LPC branch switched off (constant / fixed / verbatim subframes, all stereo modes) nothing is assumed about
+   any estimator: whatever the entropy estimator answers, the stream decodes to the input *)
+Theorem C01_stream_end_to_end_no_lpc :
+  forall (ent : N -> N -> N -> N) (qlpc : N -> N -> qparams) (md5 : list N -> list N)
+         cfg rate channels bps bs samples bytes (total : nat),
+    encode_stream_bytes ent qlpc md5 cfg rate channels bps bs samples = Ok bytes ->
+    cfg_use_lpc cfg = false ->
+    cfg_max_parameter cfg <= 14 -> In bps [8; 12; 16; 20; 24] -> 1 <= rate < 2 ^ 20 -> 1 <= channels <= 8 ->
+    16 <= bs <= Generated.c_MAX_BLOCK_SIZE ->
+    length samples = (total * N.to_nat channels)%nat -> N.of_nat total < 2 ^ 36 ->
+    length (md5 (md5_input bps samples)) = 16%nat -> Forall (fun x => x < 256) (md5 (md5_input bps samples)) ->
+    exists minf maxf,
+      decode_stream bytes = Some (mkSinfo bs bs minf maxf rate channels bps (N.of_nat total) (md5 (md5_input bps samples)), samples).
+Proof. exact stream_end_to_end_no_lpc. Qed.
+Print Assumptions C01_stream_end_to_end_no_lpc.
